@@ -115,9 +115,28 @@ theorem eval_congr (p q : Parsed) (hn : p.neg = q.neg) (hh : p.hex = q.hex)
       rw [eval_of_value p (Nat.pos_of_ne_zero h0) _ _ (toFrac_snd_pos p.mant p.exp) (by rw [hr, hvp]),
         eval_of_value q (Nat.pos_of_ne_zero hq0) _ _ (toFrac_snd_pos p.mant p.exp) (by rw [hr, ← hv', hvp]), hn]
 
-/-- what `readFloat` returned denotes the same number as the specification's parse -/
-theorem agrees_eval (r : RF) (p : Parsed) (lit : Nat) (ha : Agrees r p lit) (ht : r.trunc = false)
-    (hlit : lit < 10000) :
+/-- the numeral as the code reads it: `g` = what the clamp of the exponent digit loop adds to the
+exponent (`expGapS`, 0 for every exponent literal below 100000) -/
+def clampP (p : Parsed) (g : Int) : Parsed := { p with exp := p.exp + g }
+
+theorem clampP_zero (p : Parsed) : clampP p 0 = p := by
+  unfold clampP; simp
+
+theorem agrees_clamp (r : RF) (p : Parsed) (g : Int) (ha : Agrees r p g) : Agrees r (clampP p g) 0 := by
+  obtain ⟨a1, a2, a3, a4, a5, a6⟩ := ha
+  refine ⟨a1, a2, a3, a4, fun ht => ?_, fun ht => ?_⟩
+  · obtain ⟨j, h1, h2⟩ := a5 ht
+    refine ⟨j, h1, fun hm => ?_⟩
+    have := h2 hm
+    show r.exp = (p.exp + g) + (((if p.hex then 4 else 1) * j : Nat) : Int) + 0
+    rw [this]; ring
+  · obtain ⟨j, h1, h2, h3, h4⟩ := a6 ht
+    refine ⟨j, h1, h2, h3, ?_⟩
+    show r.exp = (p.exp + g) + (((if p.hex then 4 else 1) * j : Nat) : Int) + 0
+    rw [h4]; ring
+
+/-- what `readFloat` returned denotes the same number as the (clamped) specification parse -/
+theorem agrees_eval (r : RF) (p : Parsed) (ha : Agrees r p 0) (ht : r.trunc = false) :
     Parsed.eval { neg := r.neg, hex := r.hex, mant := r.mant, exp := r.exp } = p.eval := by
   obtain ⟨_, hneg, hhex, _, hval, _⟩ := ha
   obtain ⟨j, hM, hE⟩ := hval ht
@@ -134,7 +153,8 @@ theorem agrees_eval (r : RF) (p : Parsed) (lit : Nat) (ha : Agrees r p lit) (ht 
       · exact h'
       · exact absurd h' (Nat.pos_iff_ne_zero.mp (Nat.pow_pos hb))
   · intro hm0
-    have hE' := hE hm0 hlit
+    have hE' := hE hm0
+    rw [Int.add_zero] at hE'
     show valueOf { neg := r.neg, hex := r.hex, mant := r.mant, exp := r.exp } = valueOf p
     unfold valueOf
     simp only [hhex]
@@ -225,11 +245,83 @@ theorem eval_dec (p : Parsed) (hh : p.hex = false) (hm : 0 < p.mant) :
   apply eval_of_value p hm _ _ (decFrac_snd_pos _ _)
   rw [decFrac_ratio]; unfold valueOf; simp [hh]
 
-/-- **the slow path of the model is the specification** outside the class of finding N3: the two
-"obvious overflow / underflow" exits of `floatBits` agree with the range rule and with the
-rounding of a tiny value to zero. -/
+/-- the core of the model's slow path on a decimal numeral (mantissa, exponent as the code reads
+them): the two "obvious overflow / underflow" exits of `floatBits` agree with the range rule and
+with the rounding of a tiny value to zero -/
+theorem slowCore_spec (q : Parsed) (hhex : q.hex = false) :
+    (if q.mant == 0 then (⟨F64.zero q.neg, none⟩ : FloatRes)
+     else
+       let dp : Int := ((Nat.toDigits 10 q.mant).length : Int) + q.exp
+       if dp > 310 then ⟨F64.inf q.neg, some .range⟩
+       else if dp < -330 then ⟨F64.zero q.neg, none⟩
+       else match ({ q with mant := q.mant, exp := q.exp } : Parsed).eval with
+         | .ok b => ⟨b, none⟩
+         | .error _ => ⟨F64.inf q.neg, some .range⟩).toExcept = q.eval := by
+  by_cases h0 : q.mant = 0
+  · have : (q.mant == 0) = true := by simp [h0]
+    simp only [this, if_true, FloatRes.toExcept]
+    rw [eval_zero q h0]
+  · have hz : (q.mant == 0) = false := by simpa using h0
+    have hpos : 0 < q.mant := Nat.pos_of_ne_zero h0
+    simp only [hz, Bool.false_eq_true, if_false]
+    obtain ⟨L1, L2⟩ := toDigits_len q.mant
+    have L2' := L2 hpos
+    have hLpos : 0 < (Nat.toDigits 10 q.mant).length := Nat.length_toDigits_pos
+    generalize (Nat.toDigits 10 q.mant).length = L at *
+    obtain ⟨_, _, b3⟩ := pow_bounds
+    rw [eval_dec q hhex hpos]
+    by_cases hbig : (L : Int) + q.exp > 310
+    · simp only [hbig, if_true, FloatRes.toExcept]
+      unfold evalFrac decFrac
+      by_cases he : q.exp ≥ 0
+      · simp only [he, if_true, Nat.mul_one]
+        have h1 : (10 : Nat) ^ (L - 1) * 10 ^ q.exp.toNat ≤ q.mant * 10 ^ q.exp.toNat := Nat.mul_le_mul_right _ L2'
+        have h2 : (10 : Nat) ^ 309 ≤ 10 ^ (L - 1) * 10 ^ q.exp.toNat := by
+          rw [← Nat.pow_add]; exact Nat.pow_le_pow_right (by decide) (by omega)
+        rw [if_pos (by omega)]
+      · simp only [he, if_false]
+        have hk : (-q.exp).toNat + 310 ≤ L - 1 := by omega
+        have h2 : (10 : Nat) ^ 309 * 10 ^ (-q.exp).toNat ≤ 10 ^ (L - 1) := by
+          rw [← Nat.pow_add]; exact Nat.pow_le_pow_right (by decide) (by omega)
+        have h3 : overflowThreshold * 10 ^ (-q.exp).toNat ≤ 10 ^ 309 * 10 ^ (-q.exp).toNat :=
+          Nat.mul_le_mul_right _ (by omega)
+        rw [if_pos (by omega)]
+    · simp only [hbig, if_false]
+      by_cases hsmall : (L : Int) + q.exp < -330
+      · simp only [hsmall, if_true, FloatRes.toExcept]
+        unfold evalFrac decFrac
+        have he : ¬ q.exp ≥ 0 := by omega
+        simp only [he, if_false]
+        have hk : L + 330 ≤ (-q.exp).toNat := by omega
+        have h1 : q.mant * 10 ^ 330 ≤ 10 ^ (-q.exp).toNat := by
+          calc q.mant * 10 ^ 330 ≤ 10 ^ L * 10 ^ 330 := Nat.mul_le_mul_right _ (by omega)
+            _ = 10 ^ (L + 330) := by rw [Nat.pow_add]
+            _ ≤ 10 ^ (-q.exp).toNat := Nat.pow_le_pow_right (by decide) hk
+        have hdpos : 0 < (10 : Nat) ^ (-q.exp).toNat := Nat.pow_pos (by decide)
+        have h330 : 1 ≤ (10 : Nat) ^ 330 := Nat.pow_pos (by decide)
+        have hlt : q.mant < 10 ^ (-q.exp).toNat := by
+          have : q.mant * 1 ≤ q.mant * 10 ^ 330 := Nat.mul_le_mul_left _ h330
+          have h2 : q.mant < q.mant * 10 ^ 330 ∨ q.mant = q.mant * 10 ^ 330 := by omega
+          have : (2 : Nat) ≤ 10 ^ 330 := by decide +kernel
+          have : q.mant * 2 ≤ q.mant * 10 ^ 330 := Nat.mul_le_mul_left _ this
+          omega
+        have hT : 10 ^ (-q.exp).toNat ≤ overflowThreshold * 10 ^ (-q.exp).toNat :=
+          Nat.le_mul_of_pos_left _ hT_pos
+        rw [if_neg (by omega), roundMag_tiny _ _ hdpos h1, signed_zero]
+      · simp only [hsmall, if_false]
+        cases hev : evalFrac q.neg (decFrac q.mant q.exp).1 (decFrac q.mant q.exp).2 with
+        | ok b => rfl
+        | error e =>
+          unfold evalFrac at hev
+          split at hev
+          · injection hev with hev; subst hev; rfl
+          · cases hev
+
+
+/-- **the slow path of the model is the specification of the numeral as the code reads it**
+(exponent literal clamped, `clampGap`) outside the class of finding N3. -/
 theorem slowPath_spec (s : Bytes) (p : Parsed) (hrec : recognise s = some p) (hhex : p.hex = false)
-    (hN3 : inClassN3 s = false) : (slowPath s).toExcept = p.eval := by
+    (hN3 : inClassN3 s = false) : (slowPath s).toExcept = (clampP p (clampGap s)).eval := by
   have hcap : decimalCap s p = (p.mant, p.exp) := by
     unfold inClassN3 at hN3
     rw [hrec] at hN3
@@ -240,68 +332,10 @@ theorem slowPath_spec (s : Bytes) (p : Parsed) (hrec : recognise s = some p) (hh
   unfold slowPath
   rw [hrec]
   simp only [hhex, Bool.false_eq_true, if_false, hcap]
-  by_cases h0 : p.mant = 0
-  · have : (p.mant == 0) = true := by simp [h0]
-    simp only [this, if_true, FloatRes.toExcept]
-    rw [eval_zero p h0]
-  · have hz : (p.mant == 0) = false := by simpa using h0
-    have hpos : 0 < p.mant := Nat.pos_of_ne_zero h0
-    simp only [hz, Bool.false_eq_true, if_false]
-    obtain ⟨L1, L2⟩ := toDigits_len p.mant
-    have L2' := L2 hpos
-    have hLpos : 0 < (Nat.toDigits 10 p.mant).length := Nat.length_toDigits_pos
-    generalize (Nat.toDigits 10 p.mant).length = L at *
-    obtain ⟨_, _, b3⟩ := pow_bounds
-    rw [eval_dec p hhex hpos]
-    by_cases hbig : (L : Int) + p.exp > 310
-    · simp only [hbig, if_true, FloatRes.toExcept]
-      unfold evalFrac decFrac
-      by_cases he : p.exp ≥ 0
-      · simp only [he, if_true, Nat.mul_one]
-        have h1 : (10 : Nat) ^ (L - 1) * 10 ^ p.exp.toNat ≤ p.mant * 10 ^ p.exp.toNat := Nat.mul_le_mul_right _ L2'
-        have h2 : (10 : Nat) ^ 309 ≤ 10 ^ (L - 1) * 10 ^ p.exp.toNat := by
-          rw [← Nat.pow_add]; exact Nat.pow_le_pow_right (by decide) (by omega)
-        rw [if_pos (by omega)]
-      · simp only [he, if_false]
-        have hk : (-p.exp).toNat + 310 ≤ L - 1 := by omega
-        have h2 : (10 : Nat) ^ 309 * 10 ^ (-p.exp).toNat ≤ 10 ^ (L - 1) := by
-          rw [← Nat.pow_add]; exact Nat.pow_le_pow_right (by decide) (by omega)
-        have h3 : overflowThreshold * 10 ^ (-p.exp).toNat ≤ 10 ^ 309 * 10 ^ (-p.exp).toNat :=
-          Nat.mul_le_mul_right _ (by omega)
-        rw [if_pos (by omega)]
-    · simp only [hbig, if_false]
-      by_cases hsmall : (L : Int) + p.exp < -330
-      · simp only [hsmall, if_true, FloatRes.toExcept]
-        unfold evalFrac decFrac
-        have he : ¬ p.exp ≥ 0 := by omega
-        simp only [he, if_false]
-        have hk : L + 330 ≤ (-p.exp).toNat := by omega
-        have h1 : p.mant * 10 ^ 330 ≤ 10 ^ (-p.exp).toNat := by
-          calc p.mant * 10 ^ 330 ≤ 10 ^ L * 10 ^ 330 := Nat.mul_le_mul_right _ (by omega)
-            _ = 10 ^ (L + 330) := by rw [Nat.pow_add]
-            _ ≤ 10 ^ (-p.exp).toNat := Nat.pow_le_pow_right (by decide) hk
-        have hdpos : 0 < (10 : Nat) ^ (-p.exp).toNat := Nat.pow_pos (by decide)
-        have h330 : 1 ≤ (10 : Nat) ^ 330 := Nat.pow_pos (by decide)
-        have hlt : p.mant < 10 ^ (-p.exp).toNat := by
-          have : p.mant * 1 ≤ p.mant * 10 ^ 330 := Nat.mul_le_mul_left _ h330
-          have h2 : p.mant < p.mant * 10 ^ 330 ∨ p.mant = p.mant * 10 ^ 330 := by omega
-          have : (2 : Nat) ≤ 10 ^ 330 := by decide +kernel
-          have : p.mant * 2 ≤ p.mant * 10 ^ 330 := Nat.mul_le_mul_left _ this
-          omega
-        have hT : 10 ^ (-p.exp).toNat ≤ overflowThreshold * 10 ^ (-p.exp).toNat :=
-          Nat.le_mul_of_pos_left _ hT_pos
-        rw [if_neg (by omega), roundMag_tiny _ _ hdpos h1, signed_zero]
-      · simp only [hsmall, if_false]
-        have hp : ({ neg := p.neg, hex := false, mant := p.mant, exp := p.exp } : Parsed) = p := by
-          cases p; simp only at hhex; subst hhex; rfl
-        rw [hp, eval_dec p hhex hpos]
-        cases hev : evalFrac p.neg (decFrac p.mant p.exp).1 (decFrac p.mant p.exp).2 with
-        | ok b => rfl
-        | error e =>
-          unfold evalFrac at hev
-          split at hev
-          · injection hev with hev; subst hev; rfl
-          · cases hev
+  have hq : ({ neg := p.neg, hex := false, mant := p.mant, exp := p.exp + clampGap s } : Parsed) = clampP p (clampGap s) := by
+    unfold clampP; cases p; simp only at hhex; subst hhex; rfl
+  rw [hq]
+  exact slowCore_spec (clampP p (clampGap s)) hhex
 
 theorem hexRes_toExcept (neg : Bool) (n d : Nat) (hd : 0 < d) :
     (⟨signed neg (roundMag n d), if roundMag n d = posInf then some .range else none⟩ : FloatRes).toExcept
@@ -315,12 +349,13 @@ theorem hexRes_toExcept (neg : Bool) (n d : Nat) (hd : 0 < d) :
 
 /-- the truncated hex path: `readFloat`'s (mantissa, exp, trunc = true) fed to `atofHex` gives the
 specification's value of the full numeral -/
-theorem hex_trunc_eval (r : RF) (p : Parsed) (lit : Nat) (ha : Agrees r p lit) (hph : p.hex = true)
-    (ht : r.trunc = true) (hlit : lit < 10000) :
+theorem hex_trunc_eval (r : RF) (p : Parsed) (ha : Agrees r p 0) (hph : p.hex = true)
+    (ht : r.trunc = true) :
     (atofHex r.mant r.exp r.neg true).toExcept = p.eval := by
   obtain ⟨_, hneg, _, h64, _, hval⟩ := ha
   obtain ⟨j, b1, b2, b3, hE⟩ := hval ht
-  have hE' := hE hlit
+  have hE' := hE
+  rw [Int.add_zero] at hE'
   simp only [hph, if_true] at b1 b2 b3 hE'
   have hbase : baseOf true = 16 := rfl
   have hmaxd : maxDOf true - 1 = 15 := rfl
@@ -408,14 +443,156 @@ theorem special_underscoreOK (s : Bytes) (b : Bits) (h : specialSpec s = some b)
       exact ⟨c, hc, (lowerc_us c).mpr h95⟩
     exact specials_no_us p hmem 95 this rfl
 
-/-- **ParseFloat = parseFloatSpec.** For every byte string outside the class of finding N3 whose
-exponent literal is below the clamp:
-`bytesconv.ParseFloat(s, 64)` (underscore check, special values, `readFloat`, hex path, exact
-path, slow path) returns exactly what the specification says: the same value bit for bit, or
-the same error. -/
-theorem parseFloat_eq_spec (s : Bytes) (hN3 : inClassN3 s = false) (hlit : expLit s < 10000) :
-    (parseFloat s).toExcept = parseFloatSpec s := by
-  unfold parseFloat parseFloatSpec
+/-! ### the clamp of the exponent digit loop -/
+
+/-- the specification with every exponent read as the code reads it (literal clamped: `g`) -/
+def parseFloatSpecG (g : Int) (s : Bytes) : Except NumErr Bits :=
+  match specialSpec s with
+  | some b => .ok b
+  | none =>
+    match recognise s with
+    | none => .error .syntax
+    | some p => (clampP p g).eval
+
+theorem parseFloatSpecG_zero (s : Bytes) : parseFloatSpecG 0 s = parseFloatSpec s := by
+  unfold parseFloatSpecG parseFloatSpec
+  cases specialSpec s with
+  | some b => rfl
+  | none =>
+    cases recognise s with
+    | none => rfl
+    | some p => simp only [clampP_zero]
+
+/-- the underscore-free body of the mantissa-and-exponent part -/
+def bodyU (s : Bytes) (hex : Bool) : Bytes :=
+  if hex then strip ((splitSign s).2.drop 2) else strip (splitSign s).2
+
+/-- what a successful recognition says about the text -/
+theorem recog_facts (s : Bytes) (p : Parsed) (hrec : recognise s = some p) :
+    p.hex = isHexPrefix (splitSign s).2 ∧
+    ∃ x, spTail p.hex (spR2 (digS p.hex) (bodyU s p.hex)) = some x ∧
+      p.mant = valOf (baseOf p.hex) ((bodyU s p.hex).takeWhile (digS p.hex) ++ spFP (digS p.hex) (bodyU s p.hex)) ∧
+      p.exp = x + -(((if p.hex then 4 else 1) * (spFP (digS p.hex) (bodyU s p.hex)).length : Nat) : Int) := by
+  cases s with
+  | nil =>
+    have : recognise [] = none := by decide
+    rw [this] at hrec; cases hrec
+  | cons c0 tl =>
+    rw [recognise_cons] at hrec
+    rw [splitSign_cons]
+    unfold bodyU
+    rw [splitSign_cons]
+    simp only []
+    generalize bodyOf c0 tl = B at *
+    by_cases hp : isHexPrefix B = true
+    · rw [if_pos hp] at hrec
+      split at hrec
+      · cases hrec
+      · have h2 := parseBody_eq2 true (strip (B.drop 2))
+        have ed : digS true = isHexDig := rfl
+        have eb : baseOf true = 16 := rfl
+        simp only [ed, eb, if_true] at h2
+        rw [h2] at hrec
+        split at hrec
+        · cases hrec
+        · cases hsp : spTail true (spR2 isHexDig (strip (B.drop 2))) with
+          | none => rw [hsp] at hrec; cases hrec
+          | some x =>
+            rw [hsp] at hrec
+            simp only [Option.map_some, Option.some.injEq] at hrec
+            subst hrec
+            exact ⟨hp.symm, x, hsp, rfl, rfl⟩
+    · simp only [Bool.not_eq_true] at hp
+      rw [if_neg (by rw [hp]; simp)] at hrec
+      split at hrec
+      · cases hrec
+      · have h2 := parseBody_eq2 false (strip B)
+        have ed : digS false = isDec := rfl
+        have eb : baseOf false = 10 := rfl
+        simp only [ed, eb, Bool.false_eq_true, if_false] at h2
+        rw [h2] at hrec
+        split at hrec
+        · cases hrec
+        · cases hsp : spTail false (spR2 isDec (strip B)) with
+          | none => rw [hsp] at hrec; cases hrec
+          | some x =>
+            rw [hsp] at hrec
+            simp only [Option.map_some, Option.some.injEq] at hrec
+            subst hrec
+            exact ⟨hp.symm, x, hsp, rfl, rfl⟩
+
+theorem expGapS_body (s : Bytes) (p : Parsed) (hrec : recognise s = some p) :
+    expGapS s = expGap (digS p.hex) (bodyU s p.hex) ∧
+    expLit s = valOf 10 (expLitDigits (digS p.hex) (bodyU s p.hex)) := by
+  obtain ⟨hh, _⟩ := recog_facts s p hrec
+  unfold expGapS expLit bodyU
+  rw [← hh]
+  cases p.hex <;> exact ⟨rfl, rfl⟩
+
+/-- **the gap the clamp opens**: none below 100000; above, the code reads a five-digit exponent of
+the same sign -/
+theorem spTail_gap (hex : Bool) (u : Bytes) (x : Int) (h : spTail hex (spR2 (digS hex) u) = some x) :
+    (valOf 10 (expLitDigits (digS hex) u) < 100000 → expGap (digS hex) u = 0) ∧
+    (100000 ≤ valOf 10 (expLitDigits (digS hex) u) →
+      (x = (valOf 10 (expLitDigits (digS hex) u) : Int) ∧ 10000 ≤ x + expGap (digS hex) u ∧ x + expGap (digS hex) u ≤ 99999) ∨
+      (x = -(valOf 10 (expLitDigits (digS hex) u) : Int) ∧ -99999 ≤ x + expGap (digS hex) u ∧ x + expGap (digS hex) u ≤ -10000)) := by
+  unfold expLitDigits expGap
+  unfold spTail at h
+  cases hr : spR2 (digS hex) u with
+  | nil => simp [valOf]
+  | cons c r3 =>
+    rw [hr] at h
+    simp only [] at h ⊢
+    by_cases hc : (lowerc c == (if hex = true then 112 else 101)) = true
+    · rw [if_pos hc] at h
+      unfold parseExp at h
+      simp only [] at h
+      by_cases hbad : ((splitSign r3).2.isEmpty || !(splitSign r3).2.all isDec) = true
+      · rw [if_pos hbad] at h; cases h
+      · rw [if_neg hbad] at h
+        injection h with h
+        have hall : (splitSign r3).2.all isDec = true := by
+          cases h' : (splitSign r3).2.all isDec
+          · exfalso; apply hbad; simp [h']
+          · rfl
+        obtain ⟨c1, c2⟩ := clampFrom_spec (splitSign r3).2 hall 0 (by decide)
+        rw [← valOf_eq] at c1 c2
+        unfold gapInt
+        generalize valOf 10 (splitSign r3).2 = L at *
+        generalize clampFrom 0 (splitSign r3).2 = C at *
+        cases hneg : (splitSign r3).1
+        · rw [hneg] at h
+          simp only [Bool.false_eq_true, if_false] at h ⊢
+          refine ⟨fun hl => by rw [c1 hl]; simp, fun hl => Or.inl ?_⟩
+          obtain ⟨d1, d2, d3⟩ := c2 hl
+          refine ⟨h.symm, ?_, ?_⟩ <;> · rw [← h]; push_cast; omega
+        · rw [hneg] at h
+          simp only [if_true] at h ⊢
+          refine ⟨fun hl => by rw [c1 hl]; simp, fun hl => Or.inr ?_⟩
+          obtain ⟨d1, d2, d3⟩ := c2 hl
+          refine ⟨h.symm, ?_, ?_⟩ <;> · rw [← h]; push_cast; omega
+    · rw [if_neg hc] at h; cases h
+
+theorem expGapS_zero (s : Bytes) (p : Parsed) (hrec : recognise s = some p) (hlit : expLit s < 100000) :
+    expGapS s = 0 := by
+  obtain ⟨e1, e2⟩ := expGapS_body s p hrec
+  obtain ⟨_, x, hx, _, _⟩ := recog_facts s p hrec
+  rw [e1]
+  exact (spTail_gap p.hex _ x hx).1 (by rw [← e2]; exact hlit)
+
+theorem clampGap_eq (s : Bytes) (h : isHexPrefix (splitSign s).2 = false) : clampGap s = expGapS s := by
+  unfold clampGap expGapS expGap spR2 gapInt clampFrom
+  simp only [h, Bool.false_eq_true, if_false]
+  rfl
+
+/-- **ParseFloat = the specification of the numeral as the code reads it.** For EVERY byte string
+outside the class of finding N3: `bytesconv.ParseFloat(s, 64)` (underscore check, special values,
+`readFloat`, hex path, exact path, slow path) returns exactly what the specification says for
+the same text with its exponent literal clamped the way `readFloat` / `decimal.set` clamp it
+(`expGapS s`, which is 0 for every exponent literal below 100000). -/
+theorem parseFloat_eq_clamped (s : Bytes) (hN3 : inClassN3 s = false) :
+    (parseFloat s).toExcept = parseFloatSpecG (expGapS s) s := by
+  unfold parseFloat parseFloatSpecG
   by_cases hu : underscoreOK s = true
   swap
   · simp only [Bool.not_eq_true] at hu
@@ -440,14 +617,16 @@ theorem parseFloat_eq_spec (s : Bytes) (hN3 : inClassN3 s = false) (hlit : expLi
       unfold slowPath
       rw [hrec]; rfl
     | some p =>
-      have ha := k2 p hrec
+      have ha0 := k2 p hrec
+      have ha := agrees_clamp _ _ _ ha0
       have hok := ha.1
-      have hhx := ha.2.2.1
+      have hhx : (readFloat s).hex = p.hex := ha.2.2.1
       cases hph : p.hex
       · -- decimal
         have hrh : (readFloat s).hex = false := by rw [hhx, hph]
         simp only [hrh, Bool.false_and, Bool.false_eq_true, if_false, hok, Bool.true_and]
         have hslow := slowPath_spec s p hrec hph hN3
+        rw [clampGap_eq s (by rw [← (recog_facts s p hrec).1]; exact hph)] at hslow
         cases hfast : (if (!(readFloat s).trunc) = true then
             atof64exact (readFloat s).mant (readFloat s).exp (readFloat s).neg else none) with
         | none => simp only []; exact hslow
@@ -461,7 +640,7 @@ theorem parseFloat_eq_spec (s : Bytes) (hN3 : inClassN3 s = false) (hlit : expLi
           simp only [Bool.not_false, if_true] at hfast
           have hf := atof64exact_correct _ _ _ _ hfast
           have hno := exact_no_overflow _ _ _ _ hfast
-          have hev := agrees_eval (readFloat s) p (expLit s) ha htr hlit
+          have hev := agrees_eval (readFloat s) (clampP p (expGapS s)) ha htr
           rw [← hev, hrh]
           unfold Parsed.eval
           simp only [Bool.false_eq_true, if_false, hno, hf]
@@ -470,8 +649,28 @@ theorem parseFloat_eq_spec (s : Bytes) (hN3 : inClassN3 s = false) (hlit : expLi
         simp only [hrh, hok, Bool.and_self, if_true]
         cases htr : (readFloat s).trunc
         · have hm64 := ha.2.2.2.1
-          have hev := agrees_eval (readFloat s) p (expLit s) ha htr hlit
+          have hev := agrees_eval (readFloat s) (clampP p (expGapS s)) ha htr
           rw [(atofHex_spec _ _ _ hm64).1, ← hev, hrh]
-        · exact hex_trunc_eval (readFloat s) p (expLit s) ha hph htr hlit
+        · exact hex_trunc_eval (readFloat s) (clampP p (expGapS s)) ha hph htr
+
+
+/-- below 100000 the clamp changes nothing -/
+theorem parseFloatSpecG_small (s : Bytes) (hlit : expLit s < 100000) :
+    parseFloatSpecG (expGapS s) s = parseFloatSpec s := by
+  rw [← parseFloatSpecG_zero s]
+  unfold parseFloatSpecG
+  cases specialSpec s with
+  | some b => rfl
+  | none =>
+    cases hrec : recognise s with
+    | none => rfl
+    | some p => simp only [expGapS_zero s p hrec hlit]
+
+/-- **ParseFloat = parseFloatSpec.** For every byte string outside the class of finding N3 whose
+exponent literal is below 100000 — where the clamp `e < 10000` of the exponent digit loop has not
+dropped a digit yet: the same value bit for bit, or the same error. -/
+theorem parseFloat_eq_spec (s : Bytes) (hN3 : inClassN3 s = false) (hlit : expLit s < 100000) :
+    (parseFloat s).toExcept = parseFloatSpec s := by
+  rw [parseFloat_eq_clamped s hN3, parseFloatSpecG_small s hlit]
 
 end C03
